@@ -29,12 +29,18 @@ def configs(tier):
             ('models.ensemble_scn:EnsembleScn', dict(kind='ensemble', members=2, requests=2, fail_fast=False, member_fail=True,
                                                      member_threads=2, cycles=2)),
             ('models.ensemble_scn:EnsembleScn', dict(kind='switch', members=3, requests=3, member_fail=False)),
+            # a batching stage downstream of a failing stage (an upstream failure must not join a batch of other requests)
+            ('models.servlet_scn:ServletScn', dict(stages=[1, 1], init_fail=False, work_fail=True, callers=1, batch_size=2,
+                                                   batch_stage=1, capacity=2)),
         ]
     return cs
 
 
 def run(tier):
-    return _server.run(PID, tier, configs(tier),
+    from engine_a.driver import run_condition
+    unit = [(run_condition, ({'module': 'harness.C09_batch', 'func': 'check_build_input_batches',
+                              'timeout': 600 if tier == 'thorough' else 200, 'property': PID},))]
+    return _server.run(PID, tier, configs(tier), extra_jobs=unit, explanation=
                        'Every caller thread checks that what Server.call returned is RES(its own x) (or its own failure); '
                        'the stream driver checks order and pairing with return_x. A response dropped by the gather thread '
                        'shows as an `inf` caller blocked forever (deadlock) — the ledger race of the pinned tree was found '
